@@ -361,6 +361,10 @@ def part_b(chk: Check, rnd: random.Random, thorough: bool) -> None:
         [f"RP --- {C0} 18:006402 --:------ 000C 012 0108001099C30108001099C4", f"RP --- {C0} 18:006402 --:------ 000C 006 01087FFFFFFF",
          f"RP --- {C0} 18:006402 --:------ 000C 006 0208001099C3"],
     ]
+    # ... and an underfloor controller answering for its circuits: two bound to zones, one not bound
+    corpus.append(["RP --- 02:044328 18:006402 --:------ 0005 004 00090007", "RP --- 02:044328 18:006402 --:------ 000C 006 0009080520F8",
+                   "RP --- 02:044328 18:006402 --:------ 000C 006 0109070520F8", "RP --- 02:044328 18:006402 --:------ 000C 006 03097FFFFFFF",
+                   " I --- 01:073976 --:------ 01:073976 1F09 003 FF0532"])
     for ep in range(n + len(corpus)):
         h = gwrig.mutate_history(rnd, logs, max_len=120 if thorough else 80) if ep >= len(corpus) else list(corpus[ep])
         rate = rnd.choice((0.0, 0.05, 0.15, 0.4)) if ep >= len(corpus) else 0.0
